@@ -374,6 +374,29 @@ func (fc *FuncCtx) ap0(v ssa.Value) string {
 							if val := literalFieldValue(ld.X, path, 0); val != nil {
 								return fc.parent.AP(val)
 							}
+							// a struct-valued field stored whole (status: resp.Status): the rest of the path is read from that value
+							for k := len(path) - 1; k >= 1; k-- {
+								val := literalFieldValue(ld.X, path[:k], 0)
+								if val == nil {
+									continue
+								}
+								out := fc.parent.AP(val)
+								t := val.Type()
+								okPath := true
+								for _, f := range path[k:] {
+									st, isSt := derefType(t).Underlying().(*types.Struct)
+									if !isSt || f >= st.NumFields() {
+										okPath = false
+										break
+									}
+									out += "." + st.Field(f).Name()
+									t = st.Field(f).Type()
+								}
+								if okPath {
+									return out
+								}
+								break
+							}
 						}
 					}
 				}
@@ -495,6 +518,28 @@ func (fc *FuncCtx) ap0(v ssa.Value) string {
 	case *ssa.Index:
 		return fc.AP(x.X) + fc.indexStr(x.Index)
 	case *ssa.Lookup:
+		// membership in a constant set written as a table (map[K]bool with true entries only): named like the comparison
+		// with its keys it stands for (schemes["https": true][s] is s == "https")
+		if !x.CommaOk && isBoolType(x.Type()) {
+			if ents, ok := fc.tableEntries(x); ok && len(ents) > 0 && len(ents) <= 4 {
+				var alts []string
+				for _, e := range ents {
+					if vb, isB := constBool(e.v); !isB || !vb {
+						alts = nil
+						break
+					}
+					alts = append(alts, "("+fc.AP(x.Index)+"=="+fc.AP(e.k)+")")
+				}
+				if len(alts) > 0 {
+					sort.Strings(alts)
+					out := alts[0]
+					for _, q := range alts[1:] {
+						out = "(" + out + "||" + q + ")"
+					}
+					return out
+				}
+			}
+		}
 		return fc.AP(x.X) + "[" + fc.AP(x.Index) + "]"
 	case *ssa.Slice:
 		// s[len(p):] of a string: the text after the prefix (the rules that rely on it also require HasPrefix(s, p))
@@ -724,10 +769,62 @@ func (fc *FuncCtx) callAP(x *ssa.Call) string {
 		}
 		return fc.uniq("r:"+shortFn(sc), x)
 	}
+	// the decimal text of an integer, however it is spelt: fmt.Sprintf("%d", n), fmt.Sprint(n), strconv.FormatInt(int64(n), 10)
+	// name what strconv.Itoa(n) names
+	if n := decimalTextOf(x); n != nil {
+		return "strconv.Itoa(" + fc.AP(n) + ")"
+	}
 	if pureFuncs[sc.String()] || fc.A.isPureModuleFunc(sc) {
 		return shortFn(sc) + "(" + strings.Join(args, ",") + ")"
 	}
 	return fc.uniq("r:"+shortFn(sc), x)
+}
+
+// decimalTextOf: call x yields the base-10 text of one signed integer value; that value (conversions to a wider
+// signed integer type peeled), else nil.
+func decimalTextOf(x *ssa.Call) ssa.Value {
+	sc := x.Call.StaticCallee()
+	if sc == nil {
+		return nil
+	}
+	signedInt := func(v ssa.Value) ssa.Value {
+		if mi, ok := v.(*ssa.MakeInterface); ok {
+			v = mi.X
+		}
+		for {
+			cv, ok := v.(*ssa.Convert)
+			if !ok {
+				break
+			}
+			ft, ok1 := cv.X.Type().Underlying().(*types.Basic)
+			tt, ok2 := cv.Type().Underlying().(*types.Basic)
+			if !ok1 || !ok2 || ft.Info()&types.IsInteger == 0 || tt.Info()&types.IsInteger == 0 || ft.Info()&types.IsUnsigned != 0 || tt.Info()&types.IsUnsigned != 0 || narrowsInteger(cv.X.Type(), cv.Type()) {
+				break
+			}
+			v = cv.X
+		}
+		if bt, ok := v.Type().Underlying().(*types.Basic); ok && bt.Info()&types.IsInteger != 0 && bt.Info()&types.IsUnsigned == 0 {
+			return v
+		}
+		return nil
+	}
+	switch sc.String() {
+	case "fmt.Sprintf":
+		if f, ok := constStr(x.Call.Args[0]); ok && (f == "%d" || f == "%v") {
+			if vs := varargValues(x); len(vs) == 1 {
+				return signedInt(vs[0])
+			}
+		}
+	case "fmt.Sprint":
+		if vs := varargValues(x); len(vs) == 1 {
+			return signedInt(vs[0])
+		}
+	case "strconv.FormatInt":
+		if k, ok := constInt(x.Call.Args[1]); ok && k == 10 {
+			return signedInt(x.Call.Args[0])
+		}
+	}
+	return nil
 }
 
 // accessorAP: a side-effect-free module function with a single return is named by what it returns
